@@ -201,6 +201,8 @@ def gen_problem(cfg, backward=False):
         P.clock_day = P.start_day + co[choose('cd', len(co))]
     P.start = dt(P.start_day, fresh_int('start_us', 0, DAY_US - 1) if cfg.get('sym_start_us', True) else 0)
     P.clock = dt(P.clock_day, fresh_int('clock_us', 0, DAY_US - 1))
+    if cfg.get('ctor_days_earlier'):
+        P.ctor_clock = dt(P.clock_day - cfg['ctor_days_earlier'], fresh_int('ctor_clock_us', 0, DAY_US - 1))
     bal = cfg.get('balance', [True])
     P.balance = bal[choose('bal', len(bal))]
     P.default_estimate = 0
@@ -248,7 +250,7 @@ def describe(P):
 def build_wbs(P):
     tasks = []
     for i in range(P.n):
-        t = Task(i + 1, f't{i}', resource=P.res[i], estimate=P.est[i], spent=P.spent[i], start=P.fstart[i],
+        t = Task(i, f't{i}', resource=P.res[i], estimate=P.est[i], spent=P.spent[i], start=P.fstart[i],
                  end=P.fend[i], milestone=P.milestone[i], min_start=P.min_start[i])
         tasks.append(t)
     w = WBS()
@@ -284,15 +286,18 @@ def cfg_strict_exceptions(P):
 
 def run_calc(P, w):
     """Runs calc under the symbolic clock.  Returns (schedule | None, exception | None)."""
-    with clock_and_dates(P.clock):
+    # the scheduler object may have been created earlier than calc() is called (P.ctor_clock < P.clock)
+    with clock_and_dates(getattr(P, 'ctor_clock', None) or P.clock):
         res = make_resources(P)  # inside: DirectCalendar normalises its keys with the module's datetime
+        if P.backward:
+            sc = BackwardScheduler(end=P.start, resources=res, balance_resources=P.balance,
+                                   default_estimate=P.default_estimate)
+        else:
+            sc = ForwardScheduler(start=P.start, resources=res, balance_resources=P.balance,
+                                  default_estimate=P.default_estimate)
+    with clock_and_dates(P.clock):
         try:
-            if P.backward:
-                s = BackwardScheduler(end=P.start, resources=res, balance_resources=P.balance,
-                                      default_estimate=P.default_estimate).calc(w)
-            else:
-                s = ForwardScheduler(start=P.start, resources=res, balance_resources=P.balance,
-                                     default_estimate=P.default_estimate).calc(w)
+            s = sc.calc(w)
             return s, None
         except RecursionError as e:
             return None, e
@@ -317,7 +322,7 @@ class View:
     def __init__(self, P, sch):
         self.P = P
         self.sch = sch
-        self.t = [sch.schedule[i + 1] for i in range(P.n)]
+        self.t = [sch.schedule[i] for i in range(P.n)]  # task ids are 0..n-1 (id 0 included on purpose)
         self.rows = sch.resource_usage.rows()
         self.by_task = {i: [] for i in range(P.n)}
         ix = {id(t): i for i, t in enumerate(self.t)}
@@ -395,14 +400,14 @@ PLAIN = {'milestones': False, 'resources': ['r'], 'calendars': ['default'], 'bal
 
 FWD_QUICK_PROFILES = {
     'n3-plain': dict(PLAIN, n=3, scenarios=[(0, -1)]),
-    'n2-plain-late-clock': dict(PLAIN, n=2, scenarios=[(5, 1), (3, 3)]),
+    'n2-plain-late-clock': dict(PLAIN, n=2, ctor_days_earlier=3, scenarios=[(5, 1), (3, 3)]),
     'n2-milestones': dict(PLAIN, n=2, milestones=True, scenarios=[(0, -1), (4, 0)]),
     'n2-none-values': dict(PLAIN, n=2, est_none=True, spent_none=True, default_estimate=True, scenarios=[(0, -1)]),
     'n2-resources': dict(PLAIN, n=2, resources=['r', 'q'], calendars=['sparse'], scenarios=[(5, 0)]),
     'n2-fraction': dict(PLAIN, n=2, calendars=['fraction'], grid=8, E=6, scenarios=[(1, -1)]),
     'n2-unbalanced': dict(PLAIN, n=2, balance=[False], scenarios=[(0, -1), (4, 2)]),
     'n3-summary-values': dict(PLAIN, n=3, summary_values=True, summary_resource=True, links=False, scenarios=[(2, -1)]),
-    'n2-min-start': dict(PLAIN, n=2, min_start=True, milestones=True, min_start_offsets=[-1, 1, 2], dates_on=1, scenarios=[(1, 0)]),
+    'n2-min-start': dict(PLAIN, n=2, min_start=True, milestones=True, min_start_offsets=[-1, 1, 4], scenarios=[(1, 0)]),
     'n2-fixed': dict(PLAIN, n=2, fixed=True, fixed_offsets=[-2, 1], dates_on=0, scenarios=[(1, 0), (0, 2), (2, -1)]),
     'n3-two-resources': dict(PLAIN, n=3, fixed_parent=[-1, -1, 1], resources=['r', 'q'], E=10, scenarios=[(0, -1)]),
 }
